@@ -397,9 +397,9 @@ func endExp(end string) []pExp {
 }
 
 type liftSpec[A, B any] struct {
-	items  []A            // handed to the operator
-	ref    []A            // private copies handed to the wrapped function
-	snap   func() string  // canonical form of every input incl. backing arrays
+	items  []A           // handed to the operator
+	ref    []A           // private copies handed to the wrapped function
+	snap   func() string // canonical form of every input incl. backing arrays
 	op     func(ro.Observable[A]) ro.Observable[B]
 	direct func(A) (B, error, bool) // value, error, keep (Filter: keep=false drops the item)
 	model  func(B) string           // nil: not modelled in Lean
